@@ -16,7 +16,7 @@ META = dict(
                 "clear the returned item's list_next and strictly increase the counter; nolock_push/_chain/_pop and (nolock_)is_empty likewise; "
                 "the constructor gives the empty stack with counter 0; retry loops unwound with unwinding assertions (no retry when quiescent). "
                 "seq.history runs every sequence of HLEN operations from every state and compares with an abstract stack after each one. "
-                "(RG) the same functions under interference: before each of their atomic operations and fences (wrappers of verif_rg.h) the "
+                "(RG) the same functions under interference: before AND after each of their atomic operations and fences (wrappers of verif_rg.h with VERIF_RG_POST_STEP) the "
                 "environment replaces the shared state by ANY state allowed by the Rely {counter never decreases; counter unchanged => the old "
                 "stack is a suffix of the new one (only pushes happened); items I own are neither pushed nor written; list_next of items outside "
                 "S is arbitrary}.  At each of my successful CAS the hook states the Guarantee: for pop/try_pop the installed head is the true "
@@ -25,7 +25,7 @@ META = dict(
                 "a failed CAS changes nothing; my plain writes between atomic steps leave the shared chain intact (checked before every step); "
                 "Inv is re-established.  Post: non-NULL return <=> exactly one linearisation point, the returned item is the ghost top at that "
                 "point, its list_next is NULL and it is owned by me alone; NULL return => no linearisation point and the stack was observed "
-                "empty at my last fence (try_pop: or its CAS failed, which happens only after interference).  try_pop is loop-free, so rg.try_pop "
+                "empty right after my last fence, environment step behind the fence included (try_pop: or its CAS failed, which happens only after interference).  try_pop is loop-free, so rg.try_pop "
                 "covers every interference pattern; the retry loops of pop/push/chain are explored up to MAXFAIL environment-induced CAS failures "
                 "(bounded).  (LEMMA) split_reads: the real pop reads head.item and then item->list_next with nothing in between, so no "
                 "environment step can be injected there; the lemma re-runs the finer schedule counter-read; ENV; item-read; ENV; next-read; ENV; "
